@@ -1,12 +1,12 @@
 import WmModel.Props.C08
 import WmModel.Props.C08Tie
-#print axioms Wm.Route.ctx5_addHandlerContext
+#print axioms Wm.Route.ctx_values
+#print axioms Wm.Route.ctx_get
 #print axioms Wm.Route.ctx5_addHandlerContext_idem
-#print axioms Wm.Route.ctx_values_partial
-#print axioms Wm.Route.ctx_values_nonempty
-#print axioms Wm.Route.stale_context_shows_through
-#print axioms Wm.Route.ctx_in_handler_partial
-#print axioms Wm.Route.ctx_on_produced_partial
+#print axioms Wm.Route.ctx_in_handler
+#print axioms Wm.Route.ctx_on_produced
+#print axioms Wm.Route.Old.stale_context_shows_through
+#print axioms Wm.Route.Old.agrees_on_nonempty
 #print axioms Wm.Route.handleOne_fn
 #print axioms Wm.Route.publishes_only_own
 #print axioms Wm.Route.published_iff
